@@ -192,6 +192,8 @@ def run(prog, rep):
         ls = terms.Engine(prog, inline=True, hooks=E.Hooks(["load_inputs::"])).summary(lf)
         lpn = lf.param_names()
         t = ls.ret
+        if t[0] == "ite" and q.is_ok_test(t[1]) is not None and t[2][0] == "ctor" and last(t[2][1]) == "Ok" and t[3][0] == "ctor" and last(t[3][1]) == "Err":
+            t = t[2]            # `match read { Ok(s) => s, Err(e) => return Err(..) }` instead of `?`: the success value
         el = pm.match(("ctor", P(lambda x: last(x) == "Ok") if False else ANY, (V("list"),)), t) if t[0] == "ctor" and last(t[1]) == "Ok" else None
         good = el is not None
         why = f"load_formulae returns {sem.short(t, 160)}"
